@@ -451,7 +451,10 @@ class Ctx:
             "violations": len(self.violations),
         }
         EVIDENCE_DIR.mkdir(exist_ok=True)
-        (EVIDENCE_DIR / f"{self.prop}.json").write_text(json.dumps(ev, indent=1, default=repr) + "\n")
+        # a replay of one recorded case is not a run of the check: it leaves the evidence of the last run alone
+        name = f"{self.prop}.json" if not getattr(self, "is_replay", False) else f"replay/last-replay-{self.prop}.json"
+        (EVIDENCE_DIR / "replay").mkdir(exist_ok=True)
+        (EVIDENCE_DIR / name).write_text(json.dumps(ev, indent=1, default=repr) + "\n")
         if os.environ.get("VERIF_DEBUG"):
             for v in self.violations[:8]:
                 print("DBG-VIOL", json.dumps(v, default=repr)[:int(os.environ.get("VERIF_DEBUG_LEN", "1500"))], file=sys.stderr)
